@@ -17,6 +17,23 @@ CHECKS = {
    category="model_checking", design_ref="§5 C15",
    text="Dump and Load are separate spec actions interleaved with unit algebra; TLC enumerates the interleavings; every Load on the real library must return the identical object and leave the table unchanged.",
    note="Units only in this model for now (dimensions, prefixes, quantities: see DESIGN)."),
+
+ "C04": dict(engine="conversions", technique="TLA+ spec (Conversions.tla + MC_ConvShapes): TLC enumerates every equal-dimension unit pair within bounds over a synthetic exactly-consistent system and solves the exact size ratio from the declarations; each pair replayed on the real library",
+   category="model_checking", design_ref="§5 C04",
+   text="TLC is the exhaustive small-scope enumerator and the exact-arithmetic oracle (sizes as prime-exponent vectors solved from the declarations only, consistency of the system itself checked as an invariant); every exported pair is converted by the real library in a fresh fork (cold planner caches) and again in shared processes (warm); unit identity and magnitude (1e-12) are compared whenever the conversion returns.",
+   note="Synthetic system S1 only at this level (shipped definitions: see C09 and DESIGN); conditional on the conversion returning; float comparison at 1e-12."),
+ "C05": dict(engine="conversions", technique="TLA+ spec (Conversions.tla): homomorphism theorems checked by TLC on the size model; TLC-enumerated pairs and triples replayed on the real library comparing the code's own results (linearity, zero, self, round trip, via intermediate)",
+   category="model_checking", design_ref="§5 C05",
+   text="The statement's relations are theorems of the size model (checked by TLC as invariants over all declaration subsets); on the code they are relations among its own results for every TLC-enumerated pair and triple, so they can hold where C04 has a finding.",
+   note="Synthetic S1; magnitudes {3, -6, 0, 0.75, Decimal 4.5}; tolerance 1e-12."),
+ "C07": dict(engine="conversions", technique="TLA+ spec (Conversions.tla outcome alphabet) with TLC enumerating partially connected declaration subsets x unit pairs; every case executed under python and python -O and the outcomes compared",
+   category="model_checking", design_ref="§5 C07",
+   text="TLC enumerates configurations (subsets of a 6-declaration droppable set: 64 partially connected systems) and equal-dimension pairs; each (configuration, pair) runs on the real library in both interpreter modes; the exception class of convert/==/</+/- must lie in the spec's alphabet and the two modes must agree on outcome and value.",
+   note="Quick samples 6 of the 64 configurations (seeded) ; thorough runs all 64."),
+ "C08": dict(engine="conversions", technique="TLA+ spec (Conversions.tla, no memo in the deciding spec; MemoShipped.tla mechanism model for non-vacuity) model-checked with TLC; every history (interleaving of declarations, conversions, comparisons) replayed on the real library",
+   category="model_checking", design_ref="§5 C08",
+   text="All interleavings of up to 3 declarations and 2 queries over 3 (quick) / 4 (thorough) single units are enumerated by TLC; each step is executed on the real library in a process holding exactly the preceding history and its outcome compared with F(decl) from the spec; repeats must be identical; for compound units outcomes in a fresh fork and after thousands of other conversions must agree. MemoShipped must violate C08_Function in TLC.",
+   note="Node units: F fully prescribed; compound units: single-valuedness only (cold vs warm)."),
 }
 BUILT = set(CHECKS)
 m = {"version": 1, "setup_cmd": "./setup.sh",
@@ -25,6 +42,7 @@ m = {"version": 1, "setup_cmd": "./setup.sh",
    "baseline_off_cmd": "cd /repo && /venv/bin/python -m pytest -ra -q -p no:cacheprovider --timeout=900 --continue-on-collection-errors",
    "source_commits": [], "add_only": True},
  "engines": [
+   {"name": "conversions", "path": "spec/Conversions.tla spec/MC_ConvNodes.tla spec/MC_ConvShapes.tla spec/MemoShipped.tla harness/conversions.py", "serves_properties": ["C04", "C05", "C07", "C08"], "kind_free_text": "TLC enumeration + exact oracle + replay on the real library (python and python -O)"},
    {"name": "registry", "path": "spec/Registry.tla spec/MC_Registry.tla harness/registry.py harness/alpha.py", "serves_properties": ["C01", "C02", "C15"], "kind_free_text": "TLC model checking + spec->code replay of every transition (fork tree)"},
  ],
  "checks": [], "notes": "Every check: ./check <id> [--tier quick|thorough]; exit 0 held / 1 VIOLATION / 2 machinery failure. known_findings.txt lists genuine defects left unrepaired and repairs made.",
